@@ -44,6 +44,11 @@ class C20(Spec):
         for a in bodies[::step]:
             for b in bodies[1:8:step]:
                 scripts.append(list(setup) + [f"H {a}", f"H {b}", "C 1 get $connections", "DUMP"])
+        # uploads the peer abandons half way (chunked transfer, one chunk, the connection goes away) between ordinary requests: the later
+        # requests are answered as if the abandoned ones had never been sent (the front end has four workers: six abandoned uploads reach each)
+        stale = "auth adm pw;use-db t tok;set k stolen;"
+        for probe in bodies[1:9:step]:
+            scripts.append(list(setup) + [f"HA {stale}"] * 6 + [f"H {probe}"] * 6 + ["C 1 get k", "DUMP"])
         return transport.stage("C20", scripts)
 
     def corpus(self):
